@@ -197,9 +197,52 @@ fn judge(ctx: &Ctx, p: &Prog) {
     }
 }
 
+
+/// The same program typed line by line into the interactive mode (stdin is a terminal): the limit
+/// is reported, the session goes on and ends normally.
+fn judge_repl(ctx: &Ctx, p: &Prog) {
+    let lines: Vec<String> = p.source.lines().map(|l| l.to_string()).collect();
+    let r = crate::proc::run_pty(&crate::proc::blots_bin(), &[], &lines, "\"<<\" + \"done>>\"", "<<done>>", Some(STACK), std::time::Duration::from_secs(30));
+    ctx.count(1);
+    let class = format!("repl|{}|{:?}", p.kind, p.wrap);
+    let case = json!({"source": p.source, "bounded": p.bounded, "repl": true});
+    ctx.nontrivial(&format!("{}|{}|{}", class, p.depth, p.bounded));
+    let alive = r.stderr == "marker-seen" && r.code == Some(0) && r.signal.is_none() && !r.timed_out;
+    let reported = r.stdout.contains("maximum call depth");
+    let ok = alive && (p.bounded != reported);
+    ctx.outcome(if !ok { "repl-other" } else if p.bounded { "repl-bounded-completes" } else { "repl-call-depth-error" });
+    if !ok {
+        ctx.violation(Violation {
+            kind: if !alive { "repl-session-dies".into() } else if p.bounded { "repl-bounded-recursion-wrong".into() } else { "repl-no-call-depth-error".into() },
+            class,
+            input: format!("[interactive; nesting {} x {:?}] {}", p.depth, p.wrap, p.source),
+            expected: if p.bounded { "the value, then the session continues and ends with status 0".into() } else { "'maximum call depth ... exceeded', then the session continues and ends with status 0".into() },
+            observed: format!("exit={:?} signal={:?}{} {} transcript tail={:?}", r.code, r.signal, if r.timed_out { " TIMEOUT" } else { "" }, r.stderr, tail_of(&r.stdout, 300)),
+            case,
+        });
+    }
+}
+
+fn tail_of(s: &str, n: usize) -> String {
+    let cs: Vec<char> = s.chars().collect();
+    cs[cs.len().saturating_sub(n)..].iter().collect()
+}
+
 pub fn run(ctx: &Ctx, replay: Option<&J>) -> i32 {
     if let Some(r) = replay {
         let src = r["case"]["source"].as_str().unwrap_or("");
+        if r["case"]["repl"].as_bool() == Some(true) {
+            let lines: Vec<String> = src.lines().map(|l| l.to_string()).collect();
+            let res = crate::proc::run_pty(&crate::proc::blots_bin(), &[], &lines, "\"<<\" + \"done>>\"", "<<done>>", Some(STACK), std::time::Duration::from_secs(30));
+            println!("{}\n-> exit={:?} signal={:?} {}\n{}", src, res.code, res.signal, res.stderr, tail_of(&res.stdout, 600));
+            let bounded = r["case"]["bounded"].as_bool().unwrap_or(false);
+            let ok = res.stderr == "marker-seen" && res.code == Some(0) && (bounded != res.stdout.contains("maximum call depth"));
+            if !ok {
+                println!("VIOLATION property=C18 replay=<replayed>");
+                return 1;
+            }
+            return 0;
+        }
         let file = scratch_file("replay");
         let _ = std::fs::write(&file, src);
         let res = run_blots(&[file.clone()], None, Some(STACK));
@@ -227,6 +270,16 @@ pub fn run(ctx: &Ctx, replay: Option<&J>) -> i32 {
     ctx.set("programs", json!(progs.len()));
     ctx.set("stack_limit_bytes", json!(STACK));
     par_for(progs.len(), |i| judge(ctx, &progs[i]));
+    // interactive mode: the programs whose every line is a statement of its own
+    let repl_depths: &[usize] = if ctx.quick() { &[1, 32] } else { &[1, 2, 4, 8, 16, 32] };
+    let repl_progs: Vec<&Prog> = progs
+        .iter()
+        .filter(|p| repl_depths.contains(&p.depth) && p.source.lines().all(|l| crate::parse::parse_program(l, false).is_ok()))
+        .collect();
+    ctx.set("repl_programs", json!(repl_progs.len()));
+    par_for(repl_progs.len(), |i| judge_repl(ctx, repl_progs[i]));
+    ctx.require_outcome("repl-call-depth-error", 20);
+    ctx.require_outcome("repl-bounded-completes", 20);
     crate::proc::cleanup_scratch();
     ctx.sample(json!({"unbounded": progs[0].source}));
     ctx.sample(json!({"bounded": progs[progs.len() / 2 + 1].source}));
